@@ -464,11 +464,11 @@ func main() {
 		} else {
 			c.Fail("panic", err.Error(), nil)
 		}
-		for i, n := 0, c.N(70, 4000); i < n; i++ {
+		for i, n := 0, c.N(70, 1500); i < n; i++ {
 			r := root.Fork()
 			runTable(Replay{Kind: "table", Name: fmt.Sprintf("table-%d", i), Table: rh.GenTableHistory(r, 4+r.Intn(16))})
 		}
-		for i, n := 0, c.N(50, 3000); i < n; i++ {
+		for i, n := 0, c.N(50, 800); i < n; i++ {
 			r := root.Fork()
 			run, err := rh.NewTransitRunner(rh.TransitMe, nil)
 			if err != nil {
@@ -488,7 +488,7 @@ func main() {
 			recordTransit(rp, obs, ended)
 		}
 		// exit / forward histories come last: their cases use a second mismatch list
-		for i, n := 0, c.N(14, 600); i < n; i++ {
+		for i, n := 0, c.N(14, 150); i < n; i++ {
 			r := root.Fork()
 			kind := []string{"exit", "forward"}[i%2]
 			mc := 2 + r.Intn(3)
